@@ -1611,6 +1611,9 @@ def rule_return_shapes(ctx, rep: Report, rid="M6"):
         return (pair == ("first", "second") and test in (f"{p}==0", f"not{p}")) or \
             (pair == ("second", "first") and test in (f"{p}!=0", f"{p}==1", f"{p}"))
     sel = [x for x in ast.walk(rt) if picks_first_for_zero(x)]
+    # ... or the same choice written as an if/else statement that binds one local
+    sel += [v for v in (value_def(rt, nm) for nm in sorted(local_assignments(rt))) if v is not None and not any(v is x for x in ast.walk(rt))
+            and picks_first_for_zero(v)]
     # the output slot is indexed by the same position: `out[<p>]`, built by concatenation, format or f-string
     fo_ = Folder(prog, ci.mod, rt, ci)
     indexed = False
@@ -2204,6 +2207,14 @@ def _element_paths(fn, loop: ast.For, accumulators: Set[str]):
                 paths.append((facts, pieces))
                 return
             if isinstance(st, (ast.Break, ast.Return, ast.Raise)):
+                return
+            if isinstance(st, ast.Assign) and len(st.targets) == 1 and isinstance(st.targets[0], ast.Name) and isinstance(st.value, ast.IfExp):
+                # `x = a if c else b` is the statement `if c: x = a / else: x = b`: one path per branch, with the facts of the test
+                test = _subst(st.value.test, env)
+                for pol, val in ((True, st.value.body), (False, st.value.orelse)):
+                    e2 = dict(env)
+                    e2[st.targets[0].id] = _subst(val, env)
+                    run(stmts[i + 1:], nxt, e2, facts + _split_facts(test, pol), list(pieces))
                 return
             if isinstance(st, ast.Assign) and len(st.targets) == 1 and isinstance(st.targets[0], ast.Name):
                 env[st.targets[0].id] = _subst(st.value, env)
